@@ -82,6 +82,16 @@ def oracle_C06(col):
             if any(i not in ids_exp for i in ids):
                 col.add(T, 'phantom-child', key + [nm], pre, op, observed=[c.name for c in view],
                         expected=[c.name for c in exp])
+        # same-named children: where the history consists of plain additions and same-name replacements only (no forward
+        # placement, no removal, no shortcut), "replacements substituted" fixes their relative order in the ordered view too:
+        # it is the order of the reference list
+        hist_ops = list(pre.hist) + [op]
+        if all(h[0] in ('A', 'S', 'T') or (h[0] == 'P' and _same_name_replace(st, h)) for h in hist_ops) and \
+                sorted(id(x) for x in ordv) == sorted(ids_exp):
+            for nm in {c.name for c in exp}:
+                if [id(c) for c in ordv if c.name == nm] != [id(c) for c in exp if c.name == nm]:
+                    col.add(T, 'same-name-order', key + [nm], pre, op, observed=[c.name for c in ordv])
+                    break
         if [id(x) for x in ins] != ids_exp and sorted(id(x) for x in ins) == sorted(ids_exp):
             col.add(T, 'insertion-order-wrong', key, pre, op, observed=[c.name for c in ins],
                     expected=[c.name for c in exp])
@@ -106,6 +116,11 @@ def oracle_C06(col):
             if collections.Counter(tags) != collections.Counter(c.name for c in exp):
                 col.add(T, 'serialised-count', key, pre, op, observed=tags, expected=[c.name for c in exp])
     return f
+
+
+def _same_name_replace(st, h):
+    i = h[1]
+    return i < len(st.made) and st.made[i] is not None and st.made[i].name == h[2]
 
 
 # ---------------------------------------------------------------- C07
